@@ -96,6 +96,30 @@ def parseV2Seg (r0 : Rdr) (e : EndK) : Rd × Rdr :=
                 else (tailFree b13 b14 len r6.buf,               -- addresses and drain come out of the buffer
                       { r6 with buf := r6.buf.drop len })
 
+/-- `ReadString('\n')` = `ReadBytes`: a loop of `ReadSlice`; a full buffer without LF (ErrBufferFull) is set aside and
+    the loop goes on; any read error ends it.  `acc` = the full buffers collected so far. -/
+def readLineSeg : Nat → Bytes → Rdr → Option (Bytes × Rdr)
+  | 0, _, _ => none
+  | fuel + 1, acc, r =>
+    match readLine r.buf with
+    | some line => some (acc ++ line, { r with buf := r.buf.drop line.length })
+    | none =>
+      if r.buf.length ≥ bufSize then readLineSeg fuel (acc ++ r.buf) { r with buf := [] }
+      else match fill1 r with
+        | none => none
+        | some r' => readLineSeg fuel acc r'
+
+def Rdr.readLine (r : Rdr) : Option (Bytes × Rdr) := readLineSeg (2 * r.measure + 3) [] r
+
+/-- `parseVersion1` on the segmented reader -/
+def parseV1Seg (env : Env) (r : Rdr) : Rd × Rdr :=
+  match r.readLine with
+  | none => (.err, r)
+  | some (line, r') =>
+    let n := line.length
+    if n < 2 ∨ line.getD (n - 2) 0 ≠ 0x0D then (.err, r')
+    else (parseToks env (splitSp (line.take (n - 2))) n, r')
+
 /-- how many bytes of the stream a successful `Read` has consumed -/
 def Rd.consumed : Rd → Option Nat
   | .sock n => some n
